@@ -272,6 +272,219 @@ class LibHistory(Part):
         return len(cases), bad
 
 
+BASE = ['package p is end;', 'package body p is end;', 'entity e is end;', 'architecture a of e is begin end;', 'package q is end;', '']
+BFILES = ['/b0.vhd', '/b1.vhd', '/b2.vhd', '/b3.vhd', '/b4.vhd', '/b5.vhd']
+NEWTEXT = ['', None, 'architecture b of e is begin end;', 'package r is end;']      # None = the file's own base text (re-added unchanged)
+MISSING_KEYS = [('e', 'b'), ('e', None), ('r', None), ('zz', None)]
+
+
+class ResetStep(Part):
+    """DesignRoot::reset from a symbolic dependency state"""
+    vcap = 6
+
+    def __init__(self, name, nedges, with_missing, with_all, required=()):
+        self.name, self.nedges, self.with_missing, self.with_all = name, nedges, with_missing, with_all
+        self.required_classes = required
+        self.bounds = dict(library_files=dict(zip(BFILES, BASE)), symbolic_users_of_edges=nedges, missing_unit_entry=with_missing, use_library_all_entry=with_all,
+                           change='one file replaced by one of ' + repr(NEWTEXT) + ' (None = its own text again)', analysed='every unit has an analysis result before the change')
+
+    def setup(self, chk):
+        """the analysed base state, built once per process with real code"""
+        if hasattr(chk, '_reset_base'): return
+        kit = chk.kit; ll = chk.ll; I = chk.I
+        ctx = Ctx()
+        srcs = []
+        for k, fn in enumerate(BFILES):
+            src, _ = ll.make_source(ctx, [])
+            src.fields[0].fields[ll.fidx('UniqueSource', 'file_id')] = Agg('FileId', [Agg('FilePath', [py_str(fn)]), BV(200 + k, 64)])
+            srcs.append(src)
+        def parse(f, text):
+            cont = I.call(ctx, L, 'Contents::from_str', [ValRef(py_str(text))])
+            srcs[f].fields[0].fields[ll.fidx('UniqueSource', 'contents')] = Agg('CellLike', [cont])
+            d = VecV([])
+            df = I.call(ctx, L, 'VHDLParser::parse_design_source', [ValRef(kit.parser), ValRef(srcs[f]), ValRef(d)])
+            assert not d.items
+            return df
+        chk._reset_srcs = srcs
+        chk._reset_parsed = {}
+        for f in range(len(BFILES)):
+            for t in set([BASE[f]] + [x for x in NEWTEXT if x is not None]):
+                chk._reset_parsed[(f, t)] = parse(f, t)
+        chk._reset_base = True
+
+    def new_root(self, chk, ctx):
+        kit = chk.kit; ll = chk.ll
+        F = ll.S['DesignRoot']
+        root = Agg('DesignRoot', [None] * len(F))
+        root.fields[F.index('symbols')] = kit.symbols
+        for n in ('standard_pkg_id', 'standard_arena', 'universal', 'standard_types', 'std_ulogic'): root.fields[F.index(n)] = NONE()
+        libs = HMap(); lib = kit.new_library(ctx)
+        libs.keys.append(clone_deep(kit.libname)); libs.vals.append(lib)
+        root.fields[F.index('libraries')] = libs
+        root.fields[F.index('arenas')] = Agg('FinalArena', [])
+        for n in ('users_of', 'missing_unit', 'users_of_library_all'): root.fields[F.index(n)] = Agg('CellLike', [HMap()])
+        return root, lib
+
+    def unit_ids(self, chk, lib):
+        ll = chk.ll
+        out = {}
+        for k, lu in lib.fields[ll.S['Library'].index('units')].entries():
+            uid = lu.fields[ll.fidx('LockedUnit', 'unit_id')]
+            out[chk.kit.key_str(uid)] = (uid, lu)
+        return out
+
+    def run(self, chk, ctx, inp, verify=True):
+        self.setup(chk)
+        kit = chk.kit; ll = chk.ll; I = chk.I
+        root, lib = self.new_root(chk, ctx)
+        libsym = lambda: clone_deep(kit.libname)
+        try:
+            for f in range(len(BFILES)):
+                I.call(ctx, L, 'DesignRoot::add_design_file', [ValRef(root), libsym(), clone_shared_sources(chk._reset_parsed[(f, BASE[f])], chk._reset_srcs)])
+            I.call(ctx, L, 'DesignRoot::reset', [ValRef(root)])
+            units = self.unit_ids(chk, lib)
+            names = sorted(units)
+            for k in names:
+                lock = units[k][1].fields[ll.fidx('LockedUnit', 'unit')]
+                e = I.call(ctx, L, 'AnalysisLock::entry', [ValRef(lock)])
+                if e.variant != 'Vacant': raise Violation('a freshly loaded unit is not vacant', 'setup')
+                I.call(ctx, L, 'WriteGuard::finish', [ValRef(e.fields[0]), Agg('AnalysisData', [VecV([]), False, Agg('FinalArena', [])])])
+            # symbolic dependency state recorded by the previous analysis
+            edges = []
+            for j in range(self.nedges):
+                u = choose(ctx, inp, f'e{j}user', len(names) + 1)
+                if u == len(names): continue
+                v = choose(ctx, inp, f'e{j}unit', len(names))
+                edges.append((names[u], names[v]))
+                I.call(ctx, L, 'DesignRoot::make_use_of', [ValRef(root), NONE(), ValRef(units[names[u]][0]), ValRef(units[names[v]][0])])
+            missing = None
+            if self.with_missing:
+                u = choose(ctx, inp, 'muser', len(names) + 1)
+                if u < len(names):
+                    prim, sec = MISSING_KEYS[choose(ctx, inp, 'mkey', len(MISSING_KEYS))]
+                    missing = (names[u], prim, sec)
+                    I.call(ctx, L, 'DesignRoot::make_use_of_missing_unit', [ValRef(root), ValRef(units[names[u]][0]), ValRef(libsym()), ValRef(kit.intern(ctx, prim)),
+                                                                           SOME(ValRef(kit.intern(ctx, sec))) if sec else NONE()])
+            alluser = None
+            if self.with_all:
+                u = choose(ctx, inp, 'alluser', len(names) + 1)
+                if u < len(names):
+                    alluser = names[u]
+                    I.call(ctx, L, 'DesignRoot::make_use_of_library_all', [ValRef(root), ValRef(units[names[u]][0]), ValRef(libsym())])
+            # the change
+            f = choose(ctx, inp, 'cfile', len(BFILES))
+            t = NEWTEXT[choose(ctx, inp, 'ctext', len(NEWTEXT))]
+            t = BASE[f] if t is None else t
+            I.call(ctx, L, 'DesignRoot::remove_source', [ValRef(root), libsym(), ValRef(chk._reset_srcs[f])])
+            I.call(ctx, L, 'DesignRoot::add_design_file', [ValRef(root), libsym(), clone_shared_sources(chk._reset_parsed[(f, t)], chk._reset_srcs)])
+            I.call(ctx, L, 'DesignRoot::reset', [ValRef(root)])
+        except Panic as p:
+            raise Violation('panic: ' + str(p), 'panic')
+        after = self.unit_ids(chk, lib)
+        analysed = {}
+        for k, (uid, lu) in after.items():
+            lock = lu.fields[ll.fidx('LockedUnit', 'unit')]
+            analysed[k] = bool(I.call(ctx, L, 'AnalysisLock::is_analyzed', [ValRef(lock)]))
+        F = ll.S['DesignRoot']
+        uo = {kit.key_str(k): sorted(kit.key_str(x) for x in v.items) for k, v in root.fields[F.index('users_of')].fields[0].entries()}
+        la = [kit.key_str(x) for _, v in root.fields[F.index('users_of_library_all')].fields[0].entries() for x in v.items]
+        mi = [(sym_name(k.fields[1]), sym_name(k.fields[2].fields[0]) if k.fields[2].variant == 'Some' else None, sorted(kit.key_str(x) for x in v.items))
+              for k, v in root.fields[F.index('missing_unit')].fields[0].entries()]
+        LF = ll.S['Library']
+        left = len(lib.fields[LF.index('added')].items) + len(lib.fields[LF.index('removed')].items)
+        outcome = dict(units=sorted(analysed.items()), users_of=uo, library_all=sorted(la), missing=sorted(mi, key=str), left=left)
+        state = dict(edges=edges, missing=missing, alluser=alluser, file=f, text=t)
+        if verify: check_reset(state, outcome)
+        ctx.cover('compared')
+        if any(not a for a in analysed.values()): ctx.cover('some unit reset')
+        if any(analysed.values()): ctx.cover('some unit kept')
+        return state, outcome
+
+    def harness(self, chk):
+        def h(ctx): self.run(chk, ctx, SymInputs(ctx))
+        return h
+
+    def case_of_state(self, state):
+        return {'files': [[n, t] for n, t in zip(BFILES, BASE)], 'edges': [list(e) for e in state['edges']],
+                'library_all': [state['alluser']] if state['alluser'] else [],
+                'missing': [list(state['missing'])] if state['missing'] else [], 'changes': [[state['file'], state['text']]]}
+
+    def case_of(self, w): return {'witness': w}
+
+    def replay_case(self, chk, w, v):
+        ctx = Ctx()
+        try:
+            state, _ = self.run(chk, ctx, ConcInputs(ctx, w), verify=False)
+        except Violation:
+            return 'panic paths are not replayed for this part'
+        out = chk.native.run('reset', [self.case_of_state(state)])[0]
+        if 'panic' in out: return True
+        if 'units' not in out: return f'native replay failed: {out}'
+        outcome = dict(units=sorted((k, a) for k, a in out['units']), users_of={k: v for k, v in out['users_of']}, library_all=sorted(out['library_all_users']),
+                       missing=[(p, s, u) for p, s, u in out['missing']], left=out['left'])
+        try: check_reset(state, outcome)
+        except Violation: return True
+        return False
+
+    def translator_validation(self, chk):
+        rng = chk.rng; bad = []; n = 0
+        for _ in range(8):
+            w = {f'e{j}user': rng.randrange(6) for j in range(self.nedges)}
+            w.update({f'e{j}unit': rng.randrange(5) for j in range(self.nedges)})
+            w.update(muser=rng.randrange(6), mkey=rng.randrange(len(MISSING_KEYS)), alluser=rng.randrange(6), cfile=rng.randrange(len(BFILES)), ctext=rng.randrange(len(NEWTEXT)))
+            ctx = Ctx()
+            state, mine = self.run(chk, ctx, ConcInputs(ctx, w), verify=False)
+            out = chk.native.run('reset', [self.case_of_state(state)])[0]
+            n += 1
+            theirs = dict(units=sorted((k, a) for k, a in out.get('units', [])), users_of={k: v for k, v in out.get('users_of', [])}, library_all=sorted(out.get('library_all_users', [])),
+                          missing=sorted([(p, s, u) for p, s, u in out.get('missing', [])], key=str), left=out.get('left'))
+            mine2 = dict(mine); mine2['units'] = sorted(mine['units'])
+            if mine2 != theirs: bad.append({'case': self.case_of_state(state), 'interpreter': mine2, 'native': theirs})
+        return n, bad
+
+
+def keys_of_text(t):
+    return {'package p is end;': ['Primary:p'], 'package body p is end;': ['Secondary:p/p'], 'entity e is end;': ['Primary:e'],
+            'architecture a of e is begin end;': ['Secondary:e/a'], 'package q is end;': ['Primary:q'], '': [],
+            'architecture b of e is begin end;': ['Secondary:e/b'], 'package r is end;': ['Primary:r']}[t]
+
+
+def check_reset(state, outcome):
+    """the obligations of DesignRoot::reset, from the property text (superset form: resetting more than needed is never an alarm)"""
+    f, t = state['file'], state['text']
+    old, new = set(keys_of_text(BASE[f])), set(keys_of_text(t))
+    removed_only, added_only, changed = old - new, new - old, old & new
+    must = set(old | new)
+    if (removed_only or added_only) and state['alluser']: must.add(state['alluser'])
+    if state['missing']:
+        user, prim, sec = state['missing']
+        for k in added_only:
+            kp = k.split(':')[1].split('/')
+            if k.startswith('Primary') and kp[0] == prim and sec is None: must.add(user)
+            if k.startswith('Secondary') and kp[0] == prim and kp[1] == sec: must.add(user)
+    for k in added_only | removed_only:
+        if k == 'Secondary:p/p': must.add('Primary:p')
+    users = {}
+    for u, v in state['edges']: users.setdefault(v, set()).add(u)
+    work = list(must)
+    while work:
+        x = work.pop()
+        for u in users.get(x, ()):
+            if u not in must: must.add(u); work.append(u)
+    present = dict(outcome['units'])
+    for k in must:
+        if present.get(k) is True:
+            raise Violation(f'{k} keeps its analysis result although it depends on the change of {BFILES[f]} to {t!r} (edges {state["edges"]}, missing {state["missing"]}, lib.all {state["alluser"]})', 'reset')
+    for k in removed_only:
+        if k in outcome['users_of']: raise Violation(f'removed unit {k} is still a key of users_of', 'cleanup')
+        if k in outcome['library_all']: raise Violation(f'removed unit {k} is still recorded as a user of lib.all', 'cleanup')
+        for p, s2, us in outcome['missing']:
+            if k in us: raise Violation(f'removed unit {k} is still recorded as sensitive to a missing unit', 'cleanup')
+    for p, s2, us in outcome['missing']:
+        if not us: raise Violation('an empty missing-unit entry is left behind', 'cleanup')
+    if outcome['left']: raise Violation('added/removed are not drained by reset', 'cleanup')
+
+
 class C01(Check):
     prop = 'C01'
     crates = (L,)
@@ -284,12 +497,18 @@ class C01(Check):
         if self.tier == 'quick':
             ps = [LibHistory('library history, 3 steps over 2 files', 3, nfiles=2, required=req),
                   LibHistory('library history, 2 steps over 3 files', 2, nfiles=3, required=req),
-                  LibHistory('3 files pre-loaded (package p / p+q / empty), then 2 steps', 2, nfiles=3, contents=[0, 1, 2], init=True, required=req)]
+                  LibHistory('3 files pre-loaded (package p / p+q / empty), then 2 steps', 2, nfiles=3, contents=[0, 1, 2], init=True, required=req),
+                  ResetStep('reset: 2 symbolic users_of edges x 1 changed file', 2, False, False, required=('compared', 'some unit reset', 'some unit kept')),
+                  ResetStep('reset: missing-unit entry x 1 edge x 1 changed file', 1, True, False, required=('compared', 'some unit reset')),
+                  ResetStep('reset: use lib.all entry x 1 edge x 1 changed file', 1, False, True, required=('compared', 'some unit reset'))]
         else:
             ps = [LibHistory('library history, 3 steps over 3 files', 3, nfiles=3, required=req),
                   LibHistory('library history, 4 steps over 2 files', 4, nfiles=2, required=req, contents=[0, 1, 2, 3, 4]),
                   LibHistory('3 files pre-loaded (5 contents), then 2 steps', 2, nfiles=3, contents=[0, 1, 2, 3, 6], init=True, required=req),
-                  LibHistory('3 files pre-loaded (package p / p+q / empty), then 3 steps', 3, nfiles=3, contents=[0, 1, 2], init=True, required=req)]
+                  LibHistory('3 files pre-loaded (package p / p+q / empty), then 3 steps', 3, nfiles=3, contents=[0, 1, 2], init=True, required=req),
+                  ResetStep('reset: 3 symbolic users_of edges x 1 changed file', 3, False, False, required=('compared', 'some unit reset', 'some unit kept')),
+                  ResetStep('reset: missing-unit entry x 2 edges x 1 changed file', 2, True, False, required=('compared', 'some unit reset')),
+                  ResetStep('reset: missing-unit and lib.all entries x 1 edge x 1 changed file', 1, True, True, required=('compared', 'some unit reset'))]
         self._parts = ps
         return ps
 
